@@ -2,8 +2,10 @@ package props
 
 import (
 	"bytes"
+	"encoding/base64"
 	"errors"
 	"fmt"
+	"net/url"
 	"regexp"
 	"strings"
 	"testing"
@@ -30,7 +32,11 @@ type OutCase struct {
 	Status  string     `json:"status"`
 	ReqID   string     `json:"reqID"`
 	Resign  bool       `json:"resign,omitempty"` // with Direct: the document handed to Sign* is the SIGNED one (signed again); the new signature, placed after the Issuer, must verify
-	Direct  bool       `json:"direct,omitempty"` // signed by calling the exported SignAuthnRequest / SignLogoutRequest / SignLogoutResponse on the unsigned document's root
+	// Via (C15): the message is judged as the RECIPIENT of a binding gets it — "redirect-url": taken out of the
+	// redirect URL's SAMLRequest parameter and inflated; "post-body": taken out of the POST form's hidden field —
+	// instead of as the document's own serialisation. It is the same message.
+	Via    string `json:"via,omitempty"`
+	Direct bool   `json:"direct,omitempty"` // signed by calling the exported SignAuthnRequest / SignLogoutRequest / SignLogoutResponse on the unsigned document's root
 }
 
 var keyModes = []string{"none", "tls", "custom", "setter", "both"}
@@ -267,6 +273,78 @@ func siblingRAC(rac *h.RAC) *h.RAC {
 	return nil
 }
 
+// transport sends the message through a binding builder and returns what the recipient takes out of the URL or
+// the form (doc nil: the builders that make the AuthnRequest themselves).
+func (c *OutCase) transport(sp *saml2.SAMLServiceProvider, doc *etree.Document) (string, error) {
+	via := c.Via
+	endpoint := sp.IdentityProviderSSOURL
+	if c.Kind == "logout-req" {
+		endpoint = sp.IdentityProviderSLOURL
+	}
+	if via == "redirect-url" {
+		_, keyOK := expectedSigner(c.SP)
+		if _, perr := url.Parse(endpoint); c.Kind == "logout-resp" || !keyOK || perr != nil {
+			via = "post-body" // no redirect builder for this message / nothing to sign the query with / not a URL
+		}
+	}
+	if via == "redirect-url" {
+		var got string
+		var err error
+		switch c.Kind {
+		case "authn-str":
+			got, err = sp.BuildAuthURL("")
+		case "authn-doc":
+			got, err = sp.BuildAuthURLRedirect("", doc)
+		case "logout-req":
+			got, err = sp.BuildLogoutURLRedirect("", doc)
+		}
+		if err != nil {
+			return "", err
+		}
+		u, err := url.Parse(got)
+		if err != nil {
+			return "", fmt.Errorf("redirect URL does not parse: %v", err)
+		}
+		vals := u.Query()["SAMLRequest"]
+		if len(vals) == 0 {
+			return "", fmt.Errorf("redirect URL without SAMLRequest")
+		}
+		raw, err := base64.StdEncoding.DecodeString(vals[len(vals)-1])
+		if err != nil {
+			return "", fmt.Errorf("SAMLRequest is not base64: %v", err)
+		}
+		inf, err := rawInflate(raw)
+		return string(inf), err
+	}
+	var body []byte
+	var err error
+	field := "SAMLRequest"
+	switch c.Kind {
+	case "authn-str":
+		body, err = sp.BuildAuthBodyPost("")
+	case "authn-doc":
+		body, err = sp.BuildAuthBodyPostFromDocument("", doc)
+	case "logout-req":
+		body, err = sp.BuildLogoutBodyPostFromDocument("", doc)
+	case "logout-resp":
+		body, err = sp.BuildLogoutResponseBodyPostFromDocument("", doc)
+		field = "SAMLResponse"
+	}
+	if err != nil {
+		return "", err
+	}
+	page, err := readPage(body)
+	if err != nil {
+		return "", err
+	}
+	vals := page.inputs[field]
+	if len(vals) == 0 {
+		return "", fmt.Errorf("POST form without %s field", field)
+	}
+	raw, err := base64.StdEncoding.DecodeString(vals[len(vals)-1])
+	return string(raw), err
+}
+
 func (c *OutCase) produce() (string, *saml2.SAMLServiceProvider, error) {
 	if sib := siblingRAC(c.SP.RAC); sib != nil && strings.HasPrefix(c.Kind, "authn") {
 		// another service provider in the same process, configured with the sibling, builds first
@@ -281,6 +359,10 @@ func (c *OutCase) produce() (string, *saml2.SAMLServiceProvider, error) {
 	case "authn-str":
 		if !c.Signed {
 			sp.SignAuthnRequests = false
+		}
+		if c.Via != "" {
+			s, err := c.transport(sp, nil)
+			return s, sp, err
 		}
 		s, err := sp.BuildAuthRequest()
 		return s, sp, err
@@ -341,6 +423,30 @@ func (c *OutCase) produce() (string, *saml2.SAMLServiceProvider, error) {
 	if s2, _ := doc.WriteToString(); s2 != s {
 		return s, sp, fmt.Errorf("%w: first %.300s now %.300s", errHeldChanged, s, s2)
 	}
+	// ... and it is handed to the binding builders (redirect first, then POST — a deployment that supports both
+	// bindings, or retries with the other one): they transport the document, they do not edit it (errors of a
+	// key that cannot sign are not this check's business)
+	kind := c.Kind
+	if _, hasKey := expectedSigner(c.SP); !hasKey {
+		kind = "" // redirect URLs are signed: a service provider without any key is outside their domain
+	}
+	switch kind {
+	case "authn-doc":
+		sp.BuildAuthURLRedirect("relay", doc)
+		sp.BuildAuthURLFromDocument("relay", doc)
+		sp.BuildAuthBodyPostFromDocument("relay", doc)
+	case "logout-req":
+		sp.BuildLogoutURLRedirect("relay", doc)
+		sp.BuildLogoutBodyPostFromDocument("relay", doc)
+	case "logout-resp":
+		sp.BuildLogoutResponseBodyPostFromDocument("relay", doc)
+	}
+	if s2, _ := doc.WriteToString(); s2 != s {
+		return s, sp, fmt.Errorf("%w (after the binding builders transported it): first %.300s now %.300s", errHeldChanged, s, s2)
+	}
+	if c.Via != "" {
+		s, err = c.transport(sp, doc)
+	}
 	return s, sp, err
 }
 
@@ -399,7 +505,7 @@ func (c *OutCase) charClasses() (cr, attrWS, interesting bool) {
 }
 
 func (c *OutCase) classes() []string {
-	cl := []string{"kind:" + c.Kind, fmt.Sprintf("signed:%v", c.Signed), fmt.Sprintf("direct-sign:%v", c.Direct), "enc:" + c.SP.Enc.Mode, "sig:" + c.SP.Sig.Mode}
+	cl := []string{"kind:" + c.Kind, "via:" + c.Via, fmt.Sprintf("signed:%v", c.Signed), fmt.Sprintf("direct-sign:%v", c.Direct), "enc:" + c.SP.Enc.Mode, "sig:" + c.SP.Sig.Mode}
 	if c.Signed {
 		alg := c.SP.SignAlg
 		if alg == "" {
@@ -454,6 +560,10 @@ func checkC13(c OutCase) h.Outcome {
 	xml, sp, err := c.produce()
 	if err != nil && (c.SP.Sig.FailSign || c.SP.Enc.FailSign) && !errors.Is(err, errHeldChanged) {
 		o.Classes = append(o.Classes, "failing-signer:error")
+		return o
+	}
+	if errors.Is(err, errHeldChanged) {
+		o.Violation = h.V("held-document-changed/"+c.Kind, "%v", err)
 		return o
 	}
 	if err != nil {
@@ -811,7 +921,11 @@ func TestC13(t *testing.T) {
 }
 func TestC13_Replay(t *testing.T) { h.RunReplay(t, "C13", checkC13) }
 func TestC15(t *testing.T) {
-	h.RunProp(t, "C15", func(t *rapid.T) OutCase { return genOutCase(t, false) }, checkC15)
+	h.RunProp(t, "C15", func(t *rapid.T) OutCase {
+		c := genOutCase(t, false)
+		c.Via = rapid.SampledFrom([]string{"", "", "post-body", "redirect-url"}).Draw(t, "via")
+		return c
+	}, checkC15)
 }
 func TestC15_Replay(t *testing.T) { h.RunReplay(t, "C15", checkC15) }
 
